@@ -183,9 +183,10 @@ def ofResult (q : Int) (found count : Nat) : Int :=
   else if q == 0 then C.b2i (found == 0)
   else C.b2i (decide ((found : Int) ≥ q))
 
+/-- OP_OF_PERCENT: `(((int64_t) found * 100) / count) >= r2.i` — exact integer arithmetic (the repair of finding F44) -/
 def pctResult (q : Int) (found count : Nat) : Int :=
   if isU q || count == 0 then C.UNDEF
-  else C.b2i (decide ((Float.ofNat found / Float.ofNat count) * 100 ≥ Float.ofInt q))
+  else C.b2i (decide ((((found * 100) / count : Nat) : Int) ≥ q))
 
 /-- OP_ITER_CONDITION first normalises the body's value: every defined non-zero value counts exactly once -/
 def normW (r : Int) : Int := if isU r then r else C.b2i (r != 0)
